@@ -33,7 +33,9 @@ def constants_check(ctx):
     model_src = open(os.path.join(V, 'coq/theories/Sha1.v'), encoding='utf-8').read()
     model_ok = all(re.search(r'\b%d\b' % w, model_src) for w in want)
     ctx.count('sha1:constants-checked')
-    if got != want or not model_ok:
+    # which constant plays which role is decided by the digests (implementation vs hashlib vs model on every case below);
+    # here only: the source names exactly these nine 32-bit constants, wherever it declares them
+    if sorted(got) != sorted(want) or not model_ok:
         ctx.report({'part': PART, 'constants_in_source': ['%08x' % g for g in got]}, 'source constants %s' % got,
                    'RFC 3174 constants %s' % want, cls='sha1-constants', failing_input=False,
                    what='the SHA-1 initial values / round constants in sha1.rs differ from RFC 3174 §5/§6.1')
